@@ -5,6 +5,7 @@ import Driver.Convert
 import Driver.Fee
 import Driver.Mint
 import Driver.GovTally
+import Driver.Gauge
 open Sunrise.Driver
 
 def evalLine (line : String) : String :=
@@ -25,7 +26,8 @@ def suites : List (String × (IO.FS.Stream → IO.FS.Stream → IO Unit)) := [
   ("convert", ConvertSuite.run),
   ("fee", FeeSuite.run),
   ("mint", MintSuite.run),
-  ("govtally", GovTallySuite.run)
+  ("govtally", GovTallySuite.run),
+  ("gauge", GaugeSuite.run)
 ]
 
 def main : IO Unit := do
